@@ -41,6 +41,8 @@ def code_pairings(tier):
         ("bch(15,7),left", {"family": "bch", "mu": 4, "delta": 5, "info": "left", "info_kind": "left"}, "bm", False),
         ("bch(15,7),right", {"family": "bch", "mu": 4, "delta": 5, "info": "right", "info_kind": "right"}, "bm", False),
         ("bch(15,5)", {"family": "bch", "mu": 4, "delta": 7, "info": "left", "info_kind": "left"}, "syndrome", False),
+        ("bch(15,5)", {"family": "bch", "mu": 4, "delta": 7, "info": "left", "info_kind": "left"}, "bm", False),
+        ("bch(15,5),right", {"family": "bch", "mu": 4, "delta": 7, "info": "right", "info_kind": "right"}, "bm", False),
         ("golay(24,12)", {"family": "golay", "extended": True, "info": "left", "info_kind": "left"}, "syndrome", False),
         ("golay(23,12)", {"family": "golay", "extended": False, "info": "left", "info_kind": "left"}, "syndrome", False),
         ("repetition(5)", {"family": "repetition", "n": 5}, "syndrome", False),
@@ -238,9 +240,15 @@ def run_unit(ctx, u):
             pairs = list(itertools.combinations(range(n), 2))
             pats += pairs if n <= 15 else rng.sample(pairs, 60 if q else 400)
         for w in range(3, t + 1):
-            pats += [tuple(rng.sample(range(n), w)) for _ in range(20 if q else 200)]
-        if q and len(pats) > 80:
-            pats = rng.sample(pats, 80)
+            if n <= 15 and w == 3:
+                pats += list(itertools.combinations(range(n), 3))  # every triple: exactly-t patterns are where decoders break
+            else:
+                pats += [tuple(rng.sample(range(n), w)) for _ in range(20 if q else 200)]
+        cap = 80 if t < 3 else 560
+        if q and len(pats) > cap:
+            pats = rng.sample(pats, cap)
+        if q and t >= 3 and s.get("order", 2) > 4:
+            pats = rng.sample(pats, min(len(pats), 120))
         mod2, _ = modems.build(s)
         tx2 = Preamble(mod2) if differential else mod2
         B = 4
